@@ -8,6 +8,7 @@ package main
 // rmain: start-up failures end with a non-zero status and a message, never
 // with a nil dereference; the terminal is not left in raw mode.
 //@ func rmain() (code)
+//@   locals cbAddrs addr fdir tmplf printDefaultTemplate certFile noTimestamps printIPv6 useIcanhazip logFile oneShell insertFile printCtrlI s err ich och iob err lw f err sl ctrlIConv insertGen b err b err shell cleanup fi err a err svr eg ectx
 //@   props C20
 //@   ghost raw bool = false
 //@   ghost shellErr bool = false
